@@ -682,7 +682,12 @@ def outline_loop_body(text, first_line, loop_n, name, params, captures, rel):
         elif t[0] == 'id' and tt in ('break', 'return'):
             nested = any(b2 < k < c2 for (_, b2, c2) in inner)
             if tt == 'return' or not nested:
-                raise WeaveError('outline: loop body contains `%s` of the outlined loop' % tt)
+                # leaving the outlined loop early breaks the premise of rule D6 (every entry is visited): it becomes an
+                # obligation that cannot be discharged (`d6_loop_left_early` requires false) instead of an unsupported construct
+                nk = src.next_code(k)
+                if tt == 'return' and nk is not None and not src.is_p(nk, ';'):
+                    raise WeaveError('outline: loop body returns a value from the enclosing function')
+                edits.append((t[1], t[2], '{ proof { d6_loop_left_early(); } return }'))
         k = src.next_code(k)
     body = text[body_a:body_b]
     for (a, b, rep) in sorted(edits, reverse=True):
